@@ -1,13 +1,18 @@
 package mon
 
 import (
+	"bytes"
 	"fmt"
 	"os"
 	"os/exec"
 	"path/filepath"
 	"sort"
 	"strings"
+	"sync"
+	"sync/atomic"
 	"time"
+
+	"github.com/KevoDB/kevo/pkg/verifhook"
 
 	"verif/internal/core"
 	"verif/internal/kv"
@@ -239,4 +244,155 @@ func ioFaultCase(c *core.Ctx, res *core.Result, txOnly bool) {
 	if c.Idx < 40 && len(failed) > 0 && res.Sample == nil {
 		res.Sample = map[string]interface{}{"case": c.Idx, "kind": "io_fault", "fault": fdesc, "units": len(units), "acknowledged": len(j.Acked), "failed": len(failed), "first_error": j.Errored[failed[0]]}
 	}
+}
+
+// c06RotationRace: "a write that reports an error took no effect", without any I/O fault. The writer is parked
+// inside WAL.Append after its record has been written and before the sync; a flush starts rotating the log
+// (marks it as rotating, then waits for the writer's lock); the writer is released, and the rotation is held
+// back a little longer (parked behind its flush of the old log) so that the writer's retries run out. If the
+// write then reports an error, neither the running engine nor the next recovery may show it.
+func c06RotationRace(c *core.Ctx, res *core.Result) {
+	r := c.Rand
+	cfg := kv.Cfg{MemTableSize: 1024, MaxMemTables: 4, SyncMode: []int{2, 1}[r.Intn(2)], SyncBytes: 1, CompactSecs: 3600}
+	dir := filepath.Join(c.Dir, "db")
+	eng, err := kv.Open(dir, cfg)
+	if err != nil {
+		res.Violate("open_error", err.Error(), nil)
+		return
+	}
+	closed := false
+	var armed, flushParked, fParked, mAtRot, mParked atomic.Bool
+	parkFlush, parkF, parkM := make(chan struct{}), make(chan struct{}), make(chan struct{})
+	var once1, once2, once3 sync.Once
+	releaseAll := func() {
+		once1.Do(func() { close(parkFlush) })
+		once2.Do(func() { close(parkF) })
+		once3.Do(func() { close(parkM) })
+	}
+	defer func() {
+		armed.Store(false)
+		releaseAll()
+		verifhook.Set(nil)
+		if !closed {
+			eng.Close()
+		}
+	}()
+	var wantWriter atomic.Bool
+	verifhook.Set(func(site string) {
+		if !armed.Load() {
+			return
+		}
+		switch site {
+		case "storage.flush.begin": // the background flush has taken its list of full tables and is about to rotate the log
+			if flushParked.CompareAndSwap(false, true) {
+				<-parkFlush
+			}
+		case "wal.append.before_sync", "wal.batch.before_sync":
+			if wantWriter.Load() && fParked.CompareAndSwap(false, true) {
+				<-parkF
+			}
+		case "storage.rotate.after_newwal":
+			mAtRot.Store(true)
+		case "storage.rotate.after_oldflush":
+			if mParked.CompareAndSwap(false, true) {
+				<-parkM
+			}
+		}
+	})
+	armed.Store(true)
+	waitFor := func(b *atomic.Bool) bool {
+		for i := 0; i < 5000 && !b.Load(); i++ {
+			time.Sleep(time.Millisecond)
+		}
+		return b.Load()
+	}
+	// fill a memtable: the background flush starts and is parked behind its snapshot of the full tables
+	nk := r.Range(2, 6)
+	for i := 0; i < 40 && !flushParked.Load(); i++ {
+		eng.Put([]byte(fmt.Sprintf("k%02d", i%nk)), []byte(fmt.Sprintf("c%d/base%d|%s", c.Idx, i, strings.Repeat("x", 100))))
+		time.Sleep(time.Millisecond)
+	}
+	if !waitFor(&flushParked) {
+		res.Inconclusive = "no background flush started"
+		return
+	}
+	victimKey := []byte(fmt.Sprintf("k%02d", r.Intn(nk+2))) // an existing or a new key
+	victimVal := []byte(fmt.Sprintf("c%d/victim", c.Idx))
+	del := r.Chance(30)
+	before, berr := eng.Get(victimKey)
+	wantWriter.Store(true)
+	fdone := make(chan error, 1)
+	asTx := !del && r.Chance(35)
+	go func() {
+		switch {
+		case del:
+			fdone <- eng.Delete(victimKey)
+		case asTx:
+			tx, e := eng.BeginTransaction(false)
+			if e != nil {
+				fdone <- e
+				return
+			}
+			tx.Put(victimKey, victimVal)
+			tx.Put([]byte("tx-second-key"), victimVal)
+			fdone <- tx.Commit()
+		default:
+			fdone <- eng.Put(victimKey, victimVal)
+		}
+	}()
+	if !waitFor(&fParked) {
+		res.Inconclusive = "the writer never reached the point between log write and sync"
+		return
+	}
+	once1.Do(func() { close(parkFlush) }) // the flush goes on: marks the log as rotating, creates the next one, waits for the writer's log lock
+	waitFor(&mAtRot)
+	time.Sleep(3 * time.Millisecond)
+	once2.Do(func() { close(parkF) })
+	werr := <-fdone
+	time.Sleep(5 * time.Millisecond)
+	once3.Do(func() { close(parkM) })
+	armed.Store(false)
+	verifhook.Set(nil)
+	eng.FlushImMemTables() // (waits for the background flush through the flush lock)
+	res.Count("rotation_race_scenarios", 1)
+	what := "Put"
+	if del {
+		what = "Delete"
+	} else if asTx {
+		what = "a transaction's Commit writing"
+	}
+	res.Nontrivial = true
+	feat := map[string]string{"kind": "rotation_race", "sync": fmt.Sprint(cfg.SyncMode)}
+	res.Sig = core.Sig("rotrace", cfg.SyncMode, del, werr != nil, nk)
+	if werr == nil {
+		// the retries were in time: the write succeeded and must be there (exactly once is checked by the histories)
+		res.Count("rotation_race_write_succeeded", 1)
+		return
+	}
+	res.Count("rotation_race_write_failed", 1)
+	res.Nontrivial = true
+	judge := func(where string, e interface {
+		Get([]byte) ([]byte, error)
+	}, class string) bool {
+		got, gerr := e.Get(victimKey)
+		same := (gerr != nil) == (berr != nil) && (gerr != nil || bytes.Equal(got, before))
+		if !same {
+			res.Violate(class, fmt.Sprintf("config %s: %s(%s) was inside WAL.Append (record written, not yet synced) when a flush marked the log as rotating; the call returned the error %q, yet %s the key reads %s (err %v) - before the call it read %s (err %v)",
+				cfg, what, kv.Q(victimKey), werr, where, kv.Q(got), gerr, kv.Q(before), berr), feat)
+			return false
+		}
+		return true
+	}
+	if !judge("in the running engine", eng, "failed_write_took_effect") {
+		return
+	}
+	eng.Close()
+	closed = true
+	e2, err := kv.Open(dir, cfg)
+	if err != nil {
+		res.Violate("reopen_failed_after_io_error", "reopen: "+err.Error(), feat)
+		return
+	}
+	defer e2.Close()
+	judge("after a restart", e2, "failed_write_recovered")
 }
